@@ -116,9 +116,20 @@ func (c *chunkReader) Read(p []byte) (int, error) {
 
 func serve(n *node, t *Task) {
 	plan := t.Plan
+	bodyText := plan.Body
+	for _, q := range plan.Quirks {
+		if q == "extra-json-field" && strings.HasPrefix(bodyText, "{") && strings.HasSuffix(bodyText, "}") && strings.Contains(plan.CType, "json") {
+			// a member the declared type does not have
+			inner := strings.TrimSpace(bodyText[1 : len(bodyText)-1])
+			if inner != "" {
+				inner += ","
+			}
+			bodyText = "{" + inner + `"zz_unknown":{"a":[1,2]}}`
+		}
+	}
 	var body io.Reader
-	if plan.Body != "" {
-		body = &chunkReader{data: []byte(plan.Body), chunks: plan.Chunks, quiet: n.engine == "fiber"}
+	if bodyText != "" {
+		body = &chunkReader{data: []byte(bodyText), chunks: plan.Chunks, quiet: n.engine == "fiber"}
 	}
 	target, ctype := plan.URL, plan.CType
 	var extraHeader bool
@@ -146,8 +157,8 @@ func serve(n *node, t *Task) {
 		}
 	}
 	req := httptest.NewRequest(plan.Verb, "http://sim.local"+target, body)
-	if plan.Body != "" {
-		req.ContentLength = int64(len(plan.Body))
+	if bodyText != "" {
+		req.ContentLength = int64(len(bodyText))
 		if plan.UnknownLength {
 			req.ContentLength = -1
 			req.TransferEncoding = []string{"chunked"}
@@ -164,6 +175,12 @@ func serve(n *node, t *Task) {
 	}
 	if extraHeader {
 		req.Header.Set("X-Zz-Unrelated", "1")
+	}
+	for _, q := range plan.Quirks {
+		if q == "dup-header-same" && len(plan.DupHeader) == 2 {
+			// the first scalar header parameter once more, as a second field line with the same value
+			req.Header.Add(plan.DupHeader[0], plan.DupHeader[1])
+		}
 	}
 	for _, h := range plan.Headers {
 		req.Header.Add(h[0], h[1])
